@@ -95,10 +95,10 @@ func (d *legacyDom) Gen(r *gen.R, tier string, emit func(string)) {
 		}
 		pkg := r.Pick([]string{"mw", "rb"})
 		if model && r.Chance(1, 3) {
-			pkg = "rbi" // resbadger, typed model with an index set and a query collection
+			pkg = r.Pick([]string{"rbi", "rbi", "rbe"}) // resbadger, typed model with an index set (+ query collection) / an empty index set
 		}
 		cfg := []string{"cfg", pkg, typ}
-		if pkg != "rbi" && r.Chance(1, 3) {
+		if pkg != "rbi" && pkg != "rbe" && r.Chance(1, 3) {
 			cfg = append(append(cfg, "D"), genVal()...)
 		} else {
 			cfg = append(cfg, "N")
@@ -229,12 +229,28 @@ func (d *legacyDom) start() error {
 	if d.model {
 		typ = res.Model
 	}
+	// the default Go types, given explicitly through the builder in either order
+	var typ0 interface{} = []interface{}(nil)
+	if d.model {
+		typ0 = map[string]interface{}(nil)
+	}
+	order := len(strings.Join(a, " ")) % 3
 	if a[1] == "mw" {
 		o := middleware.BadgerDB{DB: db}
-		if def != nil {
+		switch {
+		case def != nil && order == 0:
+			o = o.WithDefault(def).WithType(typ0)
+		case def != nil && order == 1:
+			o = o.WithType(typ0).WithDefault(def)
+		case def != nil:
 			o = o.WithDefault(def)
+		case order == 0:
+			o = o.WithType(typ0)
 		}
 		opt = o
+	} else if a[1] == "rbe" {
+		// resbadger typed model with an index set that has no index
+		opt = resbadger.BadgerDB{DB: db}.Model().WithType(legacyT{}).WithIndexSet(&resbadger.IndexSet{})
 	} else if a[1] == "rbi" {
 		keyOf := func(field string) func(interface{}) []byte {
 			return func(v interface{}) []byte {
@@ -259,7 +275,12 @@ func (d *legacyDom) start() error {
 		opt = resbadger.BadgerDB{DB: db}.Model().WithType(legacyT{}).WithIndexSet(d.idxs)
 	} else if d.model {
 		o := resbadger.BadgerDB{DB: db}.Model()
-		if def != nil {
+		switch {
+		case def != nil && order == 0:
+			o = o.WithDefault(def).WithType(typ0)
+		case def != nil && order == 1:
+			o = o.WithType(typ0).WithDefault(def)
+		case def != nil:
 			o = o.WithDefault(def)
 		}
 		opt = o
